@@ -955,7 +955,22 @@ func Abs(env envs.Environment, num *types.XNumber) types.XValue {
 //
 // @function round(number [,places])
 func Round(env envs.Environment, num *types.XNumber, places int) types.XValue {
+	if xerr := checkRoundingPlaces(places); xerr != nil {
+		return xerr
+	}
+
 	return types.NewXNumber(num.Native().Round(int32(places)))
+}
+
+// the number of decimal places that the rounding functions accept - rescaling a number by more than this would tie up
+// the host computing a power of ten that no number we deal with needs
+const maxRoundingPlaces = 1000
+
+func checkRoundingPlaces(places int) *types.XError {
+	if places < -maxRoundingPlaces || places > maxRoundingPlaces {
+		return types.NewXErrorf("places must be between %d and %d", -maxRoundingPlaces, maxRoundingPlaces)
+	}
+	return nil
 }
 
 // RoundUp rounds `number` up to the nearest integer value.
@@ -971,6 +986,10 @@ func Round(env envs.Environment, num *types.XNumber, places int) types.XValue {
 //
 // @function round_up(number [,places])
 func RoundUp(env envs.Environment, num *types.XNumber, places int) types.XValue {
+	if xerr := checkRoundingPlaces(places); xerr != nil {
+		return xerr
+	}
+
 	dec := num.Native()
 	if dec.Round(int32(places)).Equal(dec) {
 		return num
@@ -995,6 +1014,10 @@ func RoundUp(env envs.Environment, num *types.XNumber, places int) types.XValue 
 //
 // @function round_down(number [,places])
 func RoundDown(env envs.Environment, num *types.XNumber, places int) types.XValue {
+	if xerr := checkRoundingPlaces(places); xerr != nil {
+		return xerr
+	}
+
 	dec := num.Native()
 	if dec.Round(int32(places)).Equal(dec) {
 		return num
